@@ -101,6 +101,7 @@
 
 #![warn(missing_docs)]
 #![forbid(unsafe_code)]
+#![cfg_attr(kani, feature(allocator_api))]
 
 #[cfg(test)]
 #[path = "../tests/helpers/mod.rs"]
